@@ -17,11 +17,16 @@ Checks(e) == { <<"no-panic", e.panic = "">>,
                <<"generate-result-xor-error", e.gran => (e.gok <=> (e.gerr = ""))>>,
                <<"generate-produces-output", e.gok => e.nfiles >= 1>> }
 
+\* model conformance: cases of DefaultCycle.tla carry the outcome the model computed (selfdef: the error text says
+\* "is defined in terms of itself").  C08 itself asks for termination only, so a difference here is drift.
+Conf(e) == { <<"model-default-in-terms-of-itself-is-refused", Has(e.files, "#expect") =>
+                    IF e.files["#expect"] = "ok" THEN e.cok ELSE ~e.cok /\ e.selfdef>> }
+
 Init == l = 1 /\ bad = {} /\ drift = {}
 Next == /\ l <= Len(Trace)
         /\ l' = l + 1
         /\ bad' = bad \cup Tag(l, Failed(Checks(Trace[l])))
-        /\ UNCHANGED drift
+        /\ drift' = drift \cup Tag(l, Failed(Conf(Trace[l])))
 Spec == Init /\ [][Next]_<<l, bad, drift>>
 Done == l = Len(Trace) + 1 => WriteVerdict(Len(Trace), bad, drift)
 =============================================================================
